@@ -1032,3 +1032,74 @@ Proof.
       unfold snap_of; rewrite K3, Hsfx; unfold levels8 in K1; rewrite K1; unfold levels9 in K2;
       rewrite K2; reflexivity.
 Qed.
+
+(** * The call that raised *)
+Lemma fail_ok fs i c0 done c o e :
+  start fs i = Ok c0 -> exec fs c0 done = Ok c -> snd (step fs c o) = OErr e ->
+  spec_ok fs i (done ++ [o]) "INVOKE_" (Err e) = true.
+Proof.
+  intros Hs H He. rewrite spec_ok_unfold. destruct (wf_script (done ++ [o])) eqn:Hw; [|reflexivity].
+  cbn [negb]. unfold wf_script in Hw. apply andb_true_iff in Hw as [Hwo _]. cbv zeta.
+  destruct (wf_order_snoc done o Hwo) as [HF [Ho | [env ->]]].
+  - pose proof (reach_state fs i c0 done c Hs HF H) as Hat. pose proof Hat as [Hst [Hnb _]].
+    destruct (io_bad fs c o) eqn:B.
+    + rewrite (io_bad_step fs c o Ho B) in He. inversion He; subst e.
+      assert (Hun : s_unreadable (supplied_of fs i (done ++ [o])) = true).
+      { apply bad_unreadable; try assumption. rewrite <- Hst. unfold strip. rewrite io_bad_cache. exact B. }
+      rewrite Hun. destruct (tc_ok _); reflexivity.
+    + destruct (tc_ok (supplied_of fs i (done ++ [o]))) eqn:Htc; [|reflexivity]. exfalso.
+      destruct (step_script_cases fs c o Ho B) as [E | [[d [_ E]] | [e' [Em E]]]];
+        try (rewrite E in He; discriminate).
+      assert (Hat' : at_state fs i (done ++ [o]) (pure_step fs c o)).
+      { unfold at_state. rewrite app_assoc, apply_script_app, no_bad_app, Hnb, <- Hst, forallb_snoc, HF, Ho.
+        cbn [no_bad apply_script fold_left]. unfold strip at 3. rewrite io_bad_cache, B.
+        unfold strip. rewrite pure_step_cache. auto. }
+      destruct (at_state_merge fs i _ _ Hat' Htc) as [d0 [Em' _]]. congruence.
+  - pose proof (reach_state fs i c0 done c Hs HF H) as Hat.
+    destruct (supplied_env_snoc fs i done env) as [Q1 [Q2 [Q3 [Q4 Q5]]]]. cbv zeta in *.
+    assert (Qtc : tc_ok (supplied_of fs i (done ++ [LoadShellEnv env])) = tc_ok (supplied_of fs i done))
+      by (unfold tc_ok, levels8; rewrite Q1, Q2; reflexivity).
+    rewrite Qtc. destruct (tc_ok (supplied_of fs i done)) eqn:Htc; [|reflexivity]. cbn [negb].
+    destruct (at_state_levels fs i done c Hat) as [_ [Hun _]]. cbv zeta in *.
+    rewrite Q3, Hun, Q5. unfold levels8. rewrite Q1, Q2.
+    destruct (step fs c (LoadShellEnv env)) as [c' out] eqn:Es. cbn [snd] in He. subst out.
+    exact (env_step fs i done c env c' (OErr e) Hat Htc Es).
+Qed.
+
+(** * The constructor raised *)
+Lemma start_fail_ok fs i e : start fs i = Err e -> spec_ok fs i [] "INVOKE_" (Err e) = true.
+Proof.
+  intros Hs. rewrite spec_ok_unfold. cbn [wf_script wf_order settled existsb repoints orb negb andb]. cbv zeta.
+  rewrite start_eq in Hs.
+  destruct (exec fs (b0 i) (init_ops i)) as [c|e'] eqn:E.
+  - (* the files were read; the merge failed: the levels are not type-consistent *)
+    destruct (tc_ok (supplied_of fs i [])) eqn:Htc; [|reflexivity]. exfalso.
+    destruct (exec_script fs _ _ _ (init_ops_script i) E) as [S NB]. change (strip (b0 i)) with (b0 i) in *.
+    assert (Hat : at_state fs i [] c).
+    { unfold at_state. rewrite app_nil_r. auto. }
+    destruct (at_state_merge fs i [] c Hat Htc) as [d0 [Em _]]. rewrite Em in Hs. discriminate.
+  - (* a system / user file could not be read *)
+    inversion Hs; subst e'. clear Hs.
+    destruct (exec_fails fs _ _ _ E) as [done [o [rest [cd [E1 [E2 [E3 _]]]]]]].
+    assert (HFi : forallb script_op (done ++ o :: rest) = true) by (rewrite <- E1; apply init_ops_script).
+    rewrite forallb_app in HFi. apply andb_true_iff in HFi as [HFd HFo]. cbn [forallb] in HFo.
+    apply andb_true_iff in HFo as [Ho _].
+    assert (Hdef : is_deferred o = true).
+    { unfold init_ops in E1. destruct (i_lazy i); [destruct done; discriminate|].
+      destruct done as [|x [|y [|z done]]]; inversion E1; subst; reflexivity. }
+    destruct (io_bad fs cd o) eqn:B; [|rewrite (step_deferred fs cd o Hdef B) in E3; discriminate].
+    rewrite (io_bad_step fs cd o Ho B) in E3. inversion E3; subst e.
+    assert (Hun : s_unreadable (supplied_of fs i []) = true).
+    { destruct (exec_script fs _ _ _ HFd E2) as [S _]. change (strip (b0 i)) with (b0 i) in S.
+      rewrite <- (io_bad_cache fs cd [] o) in B. fold (strip cd) in B. rewrite S in B.
+      destruct (supplied_rt fs i []) as [_ Q]. cbv zeta in Q. rewrite Q. clear Q.
+      unfold init_ops in E1. destruct (i_lazy i); [destruct done; discriminate|]. cbn [negb orb].
+      destruct done as [|x [|y [|z done]]]; inversion E1; subst; unfold io_bad in B; cbn [undefer] in B;
+        apply located_bad_inv in B as [_ [l [El Hl]]].
+      - inversion El; subst l. destruct (located_corr fs "sys") as [K _]. cbv zeta in K. rewrite (K Hl). reflexivity.
+      - assert (Hul : c_user_loc (apply_script fs (b0 i) [LoadSystemD]) = Some "usr").
+        { destruct (fold_simple fs [LoadSystemD] (b0 i) eq_refl) as [_ [_ [_ [_ [_ [_ [_ [_ [_ [K _]]]]]]]]]]. exact K. }
+        rewrite Hul in El. inversion El; subst l.
+        destruct (located_corr fs "usr") as [K _]. cbv zeta in K. rewrite (K Hl). rewrite !orb_true_r. reflexivity. }
+    rewrite Hun. destruct (tc_ok _); reflexivity.
+Qed.
